@@ -33,7 +33,7 @@ const creds = "Proxy-Authorization: Basic dTpw\r\n" // u:p
 
 var kindNames = []string{"ok", "denied-403", "unauthenticated-407", "dial-error", "origin-reset-mid-body", "connect-client-closes-first",
 	"connect-target-closes-first", "upgrade", "mitm-inner-request", "rejected-upstream-connect", "client-abort-uploading", "client-abort-downloading",
-	"head", "post"}
+	"head", "post", "connect-client-aborts-while-dialling", "upgrade-client-aborts-before-101", "client-abort-before-response"}
 
 type ledger struct {
 	totals map[string]int // "code,method" -> count; code "*" = any code
@@ -238,6 +238,48 @@ func (s *st) exchange(kind string, c *world.Peer) *world.Peer {
 			s.count(403, "GET")
 		}
 		tc.Close()
+		return nil
+	case "connect-client-aborts-while-dialling":
+		// the client vanishes while the proxy is still connecting to the target: the 200 that establishes
+		// the tunnel cannot be written; the request still completes exactly once and the target socket is released
+		s.hop("slow.test:443", nil)
+		s.w.Net.Plan["slow.test:443"] = simnet.Slow
+		c.Send([]byte("CONNECT slow.test:443 HTTP/1.1\r\nHost: slow.test:443\r\n" + creds + "\r\n"))
+		s.sent[c] = append(s.sent[c], "CONNECT")
+		s.checkMetrics("inside "+kind+" (dial pending)", map[string]int{"CONNECT": 1})
+		c.Abort()
+		world.Settle(5 * time.Second)
+		s.led.any["CONNECT"]++
+		return nil
+	case "upgrade-client-aborts-before-101":
+		h := s.hop("ws.test:80", nil)
+		c.Send([]byte("GET http://ws.test/ws HTTP/1.1\r\nHost: ws.test\r\nConnection: Upgrade\r\nUpgrade: websocket\r\n" + creds + "\r\n"))
+		msgs, conns, _ := h.Next()
+		if len(msgs) != 1 {
+			x.Failf("harness/exchange", "upgrade not forwarded: %q", world.Clip(c.Recv()))
+			return nil
+		}
+		s.sent[c] = append(s.sent[c], "GET")
+		c.Abort()
+		h.Raw[conns[0]].Send([]byte("HTTP/1.1 101 Switching Protocols\r\nConnection: Upgrade\r\nUpgrade: websocket\r\n\r\n"))
+		world.Settle(5 * time.Second)
+		h.Raw[conns[0]].Close()
+		world.Settle(time.Second)
+		s.led.any["GET"]++
+		return nil
+	case "client-abort-before-response":
+		h := s.hop("ok.test:80", nil)
+		c.Send([]byte("GET http://ok.test/gone HTTP/1.1\r\nHost: ok.test\r\n" + creds + "\r\n"))
+		msgs, conns, _ := h.Next()
+		if len(msgs) != 1 {
+			x.Failf("harness/exchange", "%s not forwarded", kind)
+			return nil
+		}
+		s.sent[c] = append(s.sent[c], "GET")
+		c.Abort()
+		h.Conns[conns[0]].Send([]byte("HTTP/1.1 200 OK\r\nContent-Length: 2\r\n\r\nok"))
+		world.Settle(5 * time.Second)
+		s.led.any["GET"]++
 		return nil
 	case "client-abort-uploading":
 		h := s.hop("ok.test:80", nil)
@@ -551,7 +593,7 @@ func apiScenario(x *explore.X) {
 
 func TestC13(t *testing.T) {
 	s := explore.NewSuite(t, "C13", "model_checking",
-		"(sequences) every sequence of 1-2 (quick) / 1-3 (thorough) exchanges over 14 kinds (ok, HEAD, POST, 403, 407, dial error, origin reset mid-body, CONNECT torn down client-first / target-first, Upgrade, MITM hand-off + inner request, rejected upstream CONNECT inside MITM, client abort while uploading / downloading) on the same or a new client connection, against one proxy configured with basic auth, deny-domains, mitm-domains and a PAC-selected upstream; states = quiescent points between exchanges (and inside tunnels), at each the real Prometheus registry is gathered: in-flight gauge = requests in progress, requests_total = exactly one per request read under the status sent, listener/dialer active gauges = sockets the proxy actually holds (from the simulated network), all gauges zero at the end; (api) Listener/Dialer with traffic tracking: every sequence of <= 3 operations (Write, Read, io.Copy in/out) x sizes, Observer rx/tx = bytes moved, then 1-3 Close calls: active gauge drops exactly once; (concurrent-close) 2-3 threads closing one tracked connection under a controlled scheduler, OnClose exactly once")
+		"(sequences) every sequence of 1-2 (quick) / 1-3 (thorough) exchanges over 17 kinds (ok, HEAD, POST, 403, 407, dial error, origin reset mid-body, CONNECT torn down client-first / target-first, Upgrade, MITM hand-off + inner request, rejected upstream CONNECT inside MITM, client abort while uploading / downloading / before the response, client abort while the proxy is still dialling the CONNECT target (the tunnel-establishing 200 cannot be written), client abort before the 101 of an Upgrade) on the same or a new client connection, against one proxy configured with basic auth, deny-domains, mitm-domains and a PAC-selected upstream; states = quiescent points between exchanges (and inside tunnels), at each the real Prometheus registry is gathered: in-flight gauge = requests in progress, requests_total = exactly one per request read under the status sent, listener/dialer active gauges = sockets the proxy actually holds (from the simulated network), all gauges zero at the end; (api) Listener/Dialer with traffic tracking: every sequence of <= 3 operations (Write, Read, io.Copy in/out) x sizes, Observer rx/tx = bytes moved, then 1-3 Close calls: active gauge drops exactly once; (concurrent-close) 2-3 threads closing one tracked connection under a controlled scheduler, OnClose exactly once")
 	s.Assume = []string{"simnet is the ground truth for which sockets are open", "status of a response to a client that has vanished is unknowable; for those only 'exactly one completion' is required", "(concurrent-close) conntrack's sync.Once / atomics are redirected at build time to a cooperative scheduler: all interleavings of 2-3 concurrent Close calls (and a reader) with at most 2 (quick) / 3 (thorough) preemptions"}
 	for _, tier := range []string{"quick", "thorough"} {
 		l := map[string]int{"quick": 2, "thorough": 3}[tier]
